@@ -205,12 +205,26 @@ def run(prog: Program, L: Ledger) -> None:
 
 
 def _check_from_dict(prog: Program, L: Ledger, d: ClassInfo, fd: FuncInfo) -> None:
+    from ..dataflow import Inliner
+    from ..normalize import flat
+
+    fd0 = fd
+    fd = flat(prog, fd, d)
     body = fd.node
+    top = fd.body()
+    finl = Inliner(body)
+
+    def order(node) -> int:
+        for i, st in enumerate(top):
+            if any(x is node for x in ast.walk(st)):
+                return i
+        return -1
+
     ctor_line = None
     inst = None
     for n in walk_no_nested(body):
         if isinstance(n, ast.Assign) and isinstance(n.value, ast.Call) and isinstance(n.value.func, ast.Name) and n.value.func.id == "cls":
-            ctor_line = n.lineno
+            ctor_line = order(n)
             inst = n.targets[0].id if isinstance(n.targets[0], ast.Name) else None
     if inst is None:
         raise AnalysisError(f"{fd.qualname}: construction `x = cls(...)` not found")
@@ -219,7 +233,7 @@ def _check_from_dict(prog: Program, L: Ledger, d: ClassInfo, fd: FuncInfo) -> No
     for n in walk_no_nested(body):
         if isinstance(n, ast.Assign) and len(n.targets) == 1:
             t = norm(n.targets[0])
-            if t == f"{inst}._rng.bit_generator.state" and "rng_state" in norm(n.value) and n.lineno > ctor_line:
+            if t == f"{inst}._rng.bit_generator.state" and "rng_state" in norm(finl.inline(n.value)) and order(n) > ctor_line:
                 rng_ok = True
             if t in (f"{inst}._rng", f"{inst}.context.rng"):
                 L.violation("T4", f"{d.name}.from_dict:rng-rebind", f"{fd.module.relpath}:{n.lineno}",
@@ -231,7 +245,7 @@ def _check_from_dict(prog: Program, L: Ledger, d: ClassInfo, fd: FuncInfo) -> No
 
     def has_setattr_loop(key: str, target_txt: str) -> bool:
         for n in walk_no_nested(body):
-            if isinstance(n, ast.For) and key in norm(n.iter):
+            if isinstance(n, ast.For) and key in norm(finl.inline(n.iter)):
                 for c in calls_in(n):
                     if isinstance(c.func, ast.Name) and c.func.id == "setattr" and c.args and norm(c.args[0]) == target_txt:
                         return True
@@ -247,7 +261,7 @@ def _check_from_dict(prog: Program, L: Ledger, d: ClassInfo, fd: FuncInfo) -> No
     moves_ok = False
     detail = "from_dict does not rebuild the move table"
     for n in walk_no_nested(body):
-        if isinstance(n, ast.For) and "moves" in norm(n.iter):
+        if isinstance(n, ast.For) and "moves" in norm(finl.inline(n.iter)):
             for s_ in walk_no_nested(n):
                 if isinstance(s_, ast.Assign) and norm(s_.targets[0]).startswith(f"{inst}.moves["):
                     moves_ok = True
